@@ -198,7 +198,7 @@ func init() { register("C10", checkC10) }
 func checkC07(p *Prog, r *Result, tier string) {
 	r.Rule("C07.R1", "validate-all dominates insert-any: in the batch entry no reject-class source is reachable after a mutation (C06.R1 on the batch entry), every iteration of the validating loop assigns the identifier and performs all checks for its element (ITER), and both loops range over the whole, unsliced variadic parameter from its first element", 6)
 	r.Rule("C07.R2", "counts: every return of the batch entry on a path without insertion reports 0; in the insert loop the count is incremented exactly once per accepted object", 2)
-	r.Rule("C07.R3", "bulk: every batch call's count is added to the reported total; after a failed batch no further batch is applied; objects are consumed from the channel by a single receive and appended unconditionally in arrival order", 4)
+	r.Rule("C07.R3", "bulk: every batch call's count is added to the reported total; after a failed batch no further batch is applied; objects are consumed from the channel by a single receive and appended unconditionally in arrival order", 2)
 	r.Rule("C07.R4", "the scratch index is scratch: container values stored into index structures are fresh, decoded or derived from the same structure; a scratch index is never installed in a published schema", 4)
 	r.NotDecided = []string{"value level only: that the scratch index detects every intra-batch conflict is C03.R3 on a scratch receiver"}
 	c := computeClosures(p)
@@ -365,6 +365,49 @@ func checkWholeSliceLoops(p *Prog, r *Result, rule string, fn *ssa.Function) {
 							}
 						}
 					}
+					// the induction variable kept in a cell (a named result of a function with defers): every store to the
+					// cell is the constant 0 or cell+1, and some load of it is compared with len(param)
+					if ld, ok := idx.(*ssa.UnOp); ok && ld.Op == token.MUL {
+						if cell, ok := ld.X.(*ssa.Alloc); ok && cell.Referrers() != nil {
+							okStores, cmp := true, false
+							for _, rf := range *cell.Referrers() {
+								switch u := rf.(type) {
+								case *ssa.Store:
+									if u.Addr != ssa.Value(cell) {
+										okStores = false
+										continue
+									}
+									if c, ok := u.Val.(*ssa.Const); ok && c.Value != nil && c.Value.String() == "0" {
+										continue
+									}
+									if bo, ok := u.Val.(*ssa.BinOp); ok && bo.Op == token.ADD {
+										if l2, ok := bo.X.(*ssa.UnOp); ok && l2.X == ssa.Value(cell) {
+											if c, ok := bo.Y.(*ssa.Const); ok && c.Value != nil && c.Value.String() == "1" {
+												continue
+											}
+										}
+									}
+									okStores = false
+								case *ssa.UnOp:
+									if u.Referrers() == nil {
+										continue
+									}
+									for _, r2 := range *u.Referrers() {
+										if bo, ok := r2.(*ssa.BinOp); ok && bo.Op == token.LSS && bo.X == ssa.Value(u) {
+											if call, ok := bo.Y.(*ssa.Call); ok {
+												if bi, ok := call.Call.Value.(*ssa.Builtin); ok && bi.Name() == "len" && call.Call.Args[0] == param {
+													cmp = true
+												}
+											}
+										}
+									}
+								}
+							}
+							if okStores && cmp {
+								start, bounded = true, true
+							}
+						}
+					}
 					// bound: header compares idx with len(param)
 					if refs := idx.Referrers(); refs != nil {
 						for _, rf := range *refs {
@@ -479,8 +522,14 @@ func checkBulk(p *Prog, c *Closures, r *Result, rule string, bulk, many *ssa.Fun
 	}
 	exploreAll(p, c, []exploreJob{{bulk, Valuation{Cache: triNo, Async: triNo}}}, EffSet{}, r, func(j exploreJob) Listener {
 		return &effListener{p: p, r: r, root: j.root, val: j.val, onEvent: func(l *effListener, x *Explorer, st *State, ev *Event) {
-			if ev.Kind != EvCall || ev.Callee != many || len(st.frames) != 1 {
+			if ev.Kind != EvCall || ev.Callee != many {
 				return
+			}
+			// called by the chunked entry itself or by a closure of it
+			for _, fr := range st.frames[1:] {
+				if fr.fn.Parent() != bulk {
+					return
+				}
 			}
 			// state of the error variable when the batch entry is called
 			var errFact Fact
@@ -502,27 +551,49 @@ func checkBulk(p *Prog, c *Closures, r *Result, rule string, bulk, many *ssa.Fun
 	})
 	// (ii) every batch call's count flows into the total
 	nCalls := 0
+	// the batch entry may be called from a local closure of the chunked entry: its call sites count
+	scope := append([]*ssa.Function{bulk}, bulk.AnonFuncs...)
+	closureSites := map[*ssa.Function]int{}
 	for _, b := range bulk.Blocks {
 		for _, in := range b.Instrs {
-			call, ok := in.(*ssa.Call)
-			if !ok || call.Call.StaticCallee() != many {
+			ci, ok := in.(ssa.CallInstruction)
+			if !ok {
 				continue
 			}
-			nCalls++
-			added := false
-			if refs := call.Referrers(); refs != nil {
-				for _, rf := range *refs {
-					if ex, ok := rf.(*ssa.Extract); ok && ex.Index == 0 {
-						// extract -> (store to local) -> load -> ADD with total -> store to total
-						added = flowsIntoAdd(ex, 0)
-					}
+			// a call through a local variable holding the closure
+			for _, an := range bulk.AnonFuncs {
+				if calleeIsClosure(ci.Common().Value, an) {
+					closureSites[an]++
 				}
 			}
-			construct := fmt.Sprintf("batch call #%d count is added to the total", nCalls)
-			if added {
-				r.Report(rule, fn, construct, Discharged, "", p.Pos(in.Pos()), nil, true)
-			} else {
-				r.Report(rule, fn, construct, Violated, "the count returned by a batch call does not flow into an addition (the reported total would miss it)", p.Pos(in.Pos()), nil, true)
+		}
+	}
+	for _, sf := range scope {
+		for _, b := range sf.Blocks {
+			for _, in := range b.Instrs {
+				call, ok := in.(*ssa.Call)
+				if !ok || call.Call.StaticCallee() != many {
+					continue
+				}
+				nCalls++
+				if sf != bulk && closureSites[sf] > 1 {
+					nCalls += closureSites[sf] - 1
+				}
+				added := false
+				if refs := call.Referrers(); refs != nil {
+					for _, rf := range *refs {
+						if ex, ok := rf.(*ssa.Extract); ok && ex.Index == 0 {
+							// extract -> (store to local) -> load -> ADD with total -> store to total
+							added = flowsIntoAdd(ex, 0)
+						}
+					}
+				}
+				construct := fmt.Sprintf("batch call #%d count is added to the total", nCalls)
+				if added {
+					r.Report(rule, fn, construct, Discharged, "", p.Pos(in.Pos()), nil, true)
+				} else {
+					r.Report(rule, fn, construct, Violated, "the count returned by a batch call does not flow into an addition (the reported total would miss it)", p.Pos(in.Pos()), nil, true)
+				}
 			}
 		}
 	}
@@ -730,4 +801,39 @@ func checkSettingsOwned(p *Prog, c *Closures, r *Result, rule string) {
 			}
 		}}
 	}, nil)
+}
+
+// calleeIsClosure: the called value is (a local holding) the closure made from fn.
+func calleeIsClosure(v ssa.Value, fn *ssa.Function) bool {
+	seen := map[ssa.Value]bool{}
+	var walk func(v ssa.Value) bool
+	walk = func(v ssa.Value) bool {
+		if v == nil || seen[v] {
+			return false
+		}
+		seen[v] = true
+		switch x := v.(type) {
+		case *ssa.MakeClosure:
+			return x.Fn == ssa.Value(fn)
+		case *ssa.Function:
+			return x == fn
+		case *ssa.Phi:
+			for _, e := range x.Edges {
+				if walk(e) {
+					return true
+				}
+			}
+		case *ssa.UnOp:
+			// load of a local cell holding the closure
+			if al, ok := x.X.(*ssa.Alloc); ok && al.Referrers() != nil {
+				for _, rf := range *al.Referrers() {
+					if st, ok := rf.(*ssa.Store); ok && st.Addr == ssa.Value(al) && walk(st.Val) {
+						return true
+					}
+				}
+			}
+		}
+		return false
+	}
+	return walk(v)
 }
